@@ -17,6 +17,7 @@ package datacodec
 import (
 	"bytes"
 	"fmt"
+	"math"
 	"reflect"
 
 	"github.com/datastax/go-cassandra-native-protocol/datatype"
@@ -160,6 +161,13 @@ func writeMap(ext keyValueExtractor, size int, keyCodec Codec, valueCodec Codec,
 				}
 				if encodedValue == nil {
 					return nil, errNilMapValue()
+				}
+				// Protocol V2 writes the length of map keys and values as an unsigned short
+				if len(encodedKey) > math.MaxUint16 {
+					return nil, errCannotEncodeMapKey(i, collectionElementTooLarge(len(encodedKey), math.MaxUint16))
+				}
+				if len(encodedValue) > math.MaxUint16 {
+					return nil, errCannotEncodeMapValue(i, collectionElementTooLarge(len(encodedValue), math.MaxUint16))
 				}
 				_ = primitive.WriteShortBytes(encodedKey, buf)
 				_ = primitive.WriteShortBytes(encodedValue, buf)
